@@ -17,7 +17,8 @@ PROP = {'drive': ['Dsl'],
                        'C19_roundtrip_gsub3',
                        'C19_roundtrip_gsub4',
                        'C19_roundtrip_lists',
-                       'C19_roundtrip_gpos1_partial',
+                       'C19_roundtrip_gpos1',
+                       'C19_roundtrip_gpos_lists',
                        'C19_roundtrip_gpos2_partial',
                        'C19_glyphlist_roundtrip',
                        'C19_total_partial'],
